@@ -2,6 +2,7 @@ package props
 
 import (
 	"fmt"
+	"reflect"
 	"regexp"
 	"strings"
 
@@ -24,6 +25,9 @@ type c19X struct {
 	Vars  []string     `json:"vars,omitempty"`
 	Binds []c19Bind    `json:"binds,omitempty"`
 	K     []wire.Token `json:"k,omitempty"`
+	// Prelude: lines of an earlier file read by the same parser object before it parses the dump back
+	// (an application keeps one inputrc.Parser; the file it read first ends in a section of its own).
+	Prelude []string `json:"prelude,omitempty"`
 }
 
 type c19Bind struct {
@@ -92,6 +96,13 @@ func genC19(g *Gen, tier string, idx int) *wire.Scenario {
 		x.Kind = "seq"
 		for i := 0; i < g.Range(2, 6); i++ {
 			x.Seq = append(x.Seq, g.c19Rune())
+		}
+	}
+	if strings.HasPrefix(x.Kind, "dump-") && g.P(50) {
+		x.Prelude = []string{"set bell-style none", "set keymap " + Pick(g, []string{"vi-insert", "vi-command", "emacs-ctlx", "emacs", "vi-move"}),
+			"\"\\C-x\\C-r\": re-read-init-file", "$if mode=vi", "set show-mode-in-prompt on"}
+		if g.P(70) {
+			x.Prelude = append(x.Prelude, "$endif")
 		}
 	}
 	km := "emacs"
@@ -277,7 +288,42 @@ func execC19(x *Ctx, sc *wire.Scenario) *wire.Result {
 	if xx.Kind != "dump-variables" {
 		cfg = inputrc.NewConfig()
 	}
-	if err := inputrc.ParseBytes([]byte(text), cfg, inputrc.WithHaltOnErr(true)); err != nil {
+	parseBack := func() error { return inputrc.ParseBytes([]byte(text), cfg, inputrc.WithHaltOnErr(true)) }
+	if len(xx.Prelude) > 0 {
+		// The same parser object has read another file before: the dump must parse back to the same
+		// configuration as with a parser that has read nothing. (Judged apart from the comparison with
+		// the live configuration below, whose known findings would otherwise cover a difference here.)
+		p := inputrc.New(inputrc.WithHaltOnErr(true))
+		_ = p.Parse(strings.NewReader(strings.Join(xx.Prelude, "\n")+"\n"), inputrc.NewConfig())
+		used := inputrc.NewDefaultConfig()
+		if xx.Kind != "dump-variables" {
+			used = inputrc.NewConfig()
+		}
+		errUsed := p.Parse(strings.NewReader(text), used)
+		fresh := inputrc.NewDefaultConfig()
+		if xx.Kind != "dump-variables" {
+			fresh = inputrc.NewConfig()
+		}
+		errFresh := parseBackInto(text, fresh)
+		res.Counters["parsed_back_by_a_used_parser"]++
+		if fmt.Sprint(errUsed) != fmt.Sprint(errFresh) || !reflect.DeepEqual(used.Binds, fresh.Binds) || !reflect.DeepEqual(used.Vars, fresh.Vars) {
+			diff := ""
+			for _, km := range sortedKeys(fresh.Binds) {
+				if !reflect.DeepEqual(used.Binds[km], fresh.Binds[km]) {
+					diff += fmt.Sprintf(" keymap %s: %d binds with a new parser, %d with the used one;", km, len(fresh.Binds[km]), len(used.Binds[km]))
+				}
+			}
+			for _, km := range sortedKeys(used.Binds) {
+				if _, ok := fresh.Binds[km]; !ok {
+					diff += fmt.Sprintf(" keymap %s: none with a new parser, %d with the used one;", km, len(used.Binds[km]))
+				}
+			}
+			return violation(res, "MISMATCH", "C19.dump-parses-back", "parse-back-depends-on-what-the-parser-read-before:"+xx.Kind,
+				fmt.Sprintf("the output of %s parses back differently with a parser object that has read another file before (%q): errors %v / %v;%s",
+					xx.Kind, xx.Prelude, errUsed, errFresh, diff))
+		}
+	}
+	if err := parseBack(); err != nil {
 		return violation(res, "MISMATCH", "C19.dump-parses-back", "dump-unparsable:"+xx.Kind,
 			fmt.Sprintf("the output of %s (inputrc format) does not parse back: %v\n%s", xx.Kind, err, firstN(text, 600)))
 	}
@@ -337,6 +383,10 @@ func execC19(x *Ctx, sc *wire.Scenario) *wire.Result {
 		res.Sample = map[string]any{"index": sc.Index, "kind": xx.Kind, "captured_lines": len(lines), "first_lines": firstN(text, 300)}
 	}
 	return res
+}
+
+func parseBackInto(text string, cfg *inputrc.Config) error {
+	return inputrc.ParseBytes([]byte(text), cfg, inputrc.WithHaltOnErr(true))
 }
 
 func firstN(s string, n int) string {
